@@ -104,9 +104,36 @@ def main(argv=None):
         from . import selftest
 
         return selftest.main()
+    if args.prop == "lemmas":
+        # machine-checked engine lemmas (Lean 4 + Mathlib); any error is a checker error, not a violation
+        import glob, subprocess
+
+        root = os.path.join(os.path.dirname(os.path.dirname(os.path.abspath(__file__))), "lemmas")
+        bad = 0
+        for f in sorted(glob.glob(os.path.join(root, "*.lean"))):
+            t1 = time.time()
+            r = subprocess.run(["lean", f], capture_output=True, text=True, cwd=root)
+            okl = r.returncode == 0 and "error" not in (r.stdout + r.stderr) and "sorry" not in (r.stdout + r.stderr)
+            print(f"lemma {os.path.basename(f)}: {'checked' if okl else 'FAILED'} ({time.time() - t1:.0f}s)")
+            if not okl:
+                print((r.stdout + r.stderr)[-2000:])
+                bad += 1
+        return 3 if bad else 0
     prop = args.prop
     seed = int(os.environ.get("VERIF_SEED", "0") or 0)
     t0 = time.time()
+    engine_selftest = None
+    if args.tier == "thorough" and not args.only:
+        # the thorough tier first re-validates the ASSUMED torch/python/autograd contracts against real torch
+        from . import selftest
+
+        ran, fails = selftest.run(seed)
+        engine_selftest = {"differential_executions": ran, "mismatches": len(fails)}
+        if fails:
+            for f in fails[:10]:
+                print("MISMATCH", json.dumps(f, default=str)[:400])
+            print(f"ERROR: engine selftest failed ({len(fails)} mismatches between the tpv torch model and real torch)")
+            return 3
     results = runner.run_property(prop, args.tier, only=args.only, jobs=args.jobs)
     if not results:
         print(f"ERROR: no contract scenarios registered for {prop}")
@@ -205,6 +232,7 @@ def main(argv=None):
         "scenarios": len(results),
         "backends": backends,
         "solver_seconds": round(sum(v["time"] for v in all_vcs), 3),
+        "slowest_vcs": [{"obligation": v["name"], "seconds": v["time"], "backend": v["backend"]} for v in sorted(all_vcs, key=lambda v: -v["time"])[:5]],
         "functions_under_contract": {t: hashes.get(t) for t in targets},
         "functions_executed_from_source": hashes,
         "vacuity": {"cover_checks": len(covers), "covers_ok": sum(1 for e in covers if e["status"] == "proved"), "canaries": len(canaries), "canaries_refuted_as_required": sum(1 for e in canaries if e["status"] == "proved")},
@@ -213,6 +241,8 @@ def main(argv=None):
         "distinct_nontrivial": len(obs),
         "rule": "one case = one named obligation (postcondition clause, safety condition, frame condition or exception-freedom of one path) generated from the current /repo source; distinct = distinct obligation names",
         "explanation": "contract scenarios executed symbolically on the real source (tpv), every obligation discharged by z3 (nlsat on a sound QF_NRA weakening, cvc5 for unknowns / thorough tier). 'bounded' obligations are deductive proofs for all row counts, tensor contents, weights and user functions at an ENUMERATED structure size (number of variables / declared parameters / layer widths); they are reported separately and never added to 'discharged'.",
+        "engine_selftest": engine_selftest,
+        "cvc5_crosscheck": {k: sum(1 for v in all_vcs if v.get("cvc5") == k) for k in sorted({v.get("cvc5") for v in all_vcs if v.get("cvc5")})},
         "undecided": [e["name"] for e in undecided],
         "errors": [f"{r['scenario']}[{r['cfg']}]: {r['error']}" for r in errors],
     }
